@@ -96,9 +96,12 @@ def build(world, origin, prefix_bundles):
     log = [H.stored_reprs(doc.init_group)]
     for b in world.setup:
       log.append(H.stored_reprs(doc.apply(b(doc) if callable(b) else b)))
+  doc.last_group = None      # the last successful bundle of the prefix (worlds may offer its undo)
   for b in prefix_bundles:
     g, _e = doc.try_apply(b)
     log.append(H.stored_reprs(g) if g is not None else [])
+    if g is not None:
+      doc.last_group = g
   return doc, log
 
 
